@@ -115,6 +115,7 @@ class C06(Prop):
             res.digest = sim.digest()
             return res
         sig = []
+        states = set()
         try:
             ref = run.full("q0", pool=ref_pool, quiet=True)
             judged_any = False
@@ -175,6 +176,8 @@ class C06(Prop):
                                     sim.count("fault_fired:F4_intrinsic_abort")
                                 if op[1] > 0:
                                     held.append((i + op[1] + 1, r[2]))
+                    states.add((op[0], want, first, raised_before, len(held), bool(plan.get("shared")),
+                                sum(1 for sl in run.slots.values() if sl.it is not None and sl.state == "open")))
                     sim.end_op()
                     if sim.violations:
                         break
@@ -189,6 +192,7 @@ class C06(Prop):
         res.counters = sim.counters
         res.signature = tuple(sig)
         res.steps = sim.seq
+        res.states = tuple(states)
         return res
 
     def shrink_candidates(self, plan):
